@@ -19,9 +19,10 @@ UNITS = [
          contract="""
     ensures
         /*@reuse_requires_unchanged_type_size_mtime_ctime*/ r ==> unchanged_by_statement(*p_node, *node, ignore_ctime),
-        // strongest postcondition: exactly the implemented rule (the inode clause only ever restricts reuse further)
-        /*@is_parent_rule_exact*/ r == (unchanged_by_statement(*p_node, *node, ignore_ctime)
-            && (!ignore_inode || p_node.meta.inode == 0 || node.meta.inode == 0 || p_node.meta.inode == node.meta.inode)),
+        // the other direction, as far as the statement fixes it: a node that is unchanged in every compared attribute and has
+        // the same inode IS reused (how the inode switch restricts reuse beyond that is not part of the statement: the inode
+        // clause can only make the rule stricter, and the unit accepts either polarity of `ignore_inode`)
+        /*@unchanged_node_with_same_inode_is_reused*/ unchanged_by_statement(*p_node, *node, ignore_ctime) && p_node.meta.inode == node.meta.inode ==> r,
 """),
 ]
 UNITS += [
